@@ -65,7 +65,7 @@ func init() {
 	prop("C16", "C16-R3")
 	prop("C12", "C12-R4")
 	prop("C17", "C17-R1", "C17-R2")
-	prop("C19", "C19-R1", "C13-R1", "C16-R3", "C12-R4", "C17-R2")
+	prop("C19", "C19-R1/log", "C19-R1/txnid", "C19-R1/catalog", "C19-R1/pin", "C13-R1", "C16-R3", "C12-R4", "C17-R2")
 }
 
 func init() { prop("C19", "C19-R2", "C19-R3") }
@@ -77,7 +77,10 @@ func init() {
 	prop("C07", "C03-R5", "C03-R3")
 	prop("C01", "C08-R1", "C14-R1/recovery")
 	prop("C02", "C08-R1", "C20-R1")
-	prop("C16", "C19-R1")
+	prop("C16", "C19-R1/txnid")
+	prop("C08", "C19-R1/log")
+	prop("C10", "C19-R1/catalog")
+	prop("C13", "C19-R1/pin")
 	prop("C20", "C14-R1/recovery")
 }
 
